@@ -313,7 +313,7 @@ func (c *userTypesCollector) collect(node internalSchema.Node) {
 	case *internalSchema.MixedValueNode:
 		for _, ut := range strings.Split(n.Value().String(), "|") {
 			s := strings.TrimSpace(ut)
-			if s[0] == '@' {
+			if s != "" && s[0] == '@' {
 				c.addType(s)
 			}
 		}
